@@ -128,6 +128,70 @@ def read_all(w: HistWorld, it: Interp, cached: bool):
         w.cache_on = True
 
 
+def views_vs_graph(w: HistWorld, it: Interp):
+    """the link views (whole, per node, subscripted, len, membership) against the graph
+    itself; returns the first discrepancy as text, or None"""
+    g = w.graph
+    key = w.consts["LINKENTRY"]
+    edges = [(u, v, d.get(key)) for u, v, d in g.out_edges()]
+    net = w.net
+
+    def view(name):
+        return it.getattr(net, name, None, None)
+
+    def nm(x):
+        return getattr(x, "ident", x)
+
+    def fmt(xs):
+        return [tuple(nm(y) for y in x) if isinstance(x, tuple) else nm(x) for x in xs]
+
+    try:
+        for name in ("links", "out_links"):
+            got = list(it.iterate(view(name), None, None))
+            if got != edges:
+                return f"iterating `{name}` gives {fmt(got)} but the edges are {fmt(edges)}"
+        got = list(it.iterate(view("in_links"), None, None))
+        norm = sorted((tuple(sorted((id(a), id(b)))), id(l)) for a, b, l in got) if all(
+            isinstance(x, tuple) and len(x) == 3 for x in got) else None
+        want = sorted((tuple(sorted((id(a), id(b)))), id(l)) for a, b, l in edges)
+        if norm != want:
+            return f"iterating `in_links` gives {fmt(got)}, not every edge with its link once ({fmt(edges)})"
+        for name in ("links", "out_links", "in_links"):
+            v = view(name)
+            n = it.call_builtin("len", [v], {}, None, None)
+            if n != len(edges):
+                return f"len({name}) = {n!r} but the graph has {len(edges)} edges"
+            for u, x, l in edges:
+                got = it.world.getitem(it, v, (u, x), None)
+                if got is not l:
+                    return f"{name}[{nm(u)}, {nm(x)}] gives {nm(got)} but the edge carries {nm(l)}"
+                if not it.contains(v, (u, x), None, None):
+                    return f"({nm(u)}, {nm(x)}) in {name} is false for an edge of the graph"
+            for u in g.node:
+                for x in g.node:
+                    if x not in g.succ[u]:
+                        if it.contains(v, (u, x), None, None):
+                            return f"({nm(u)}, {nm(x)}) in {name} is true but there is no such edge"
+                        try:
+                            got = it.world.getitem(it, v, (u, x), None)
+                        except Raised:
+                            continue
+                        return f"{name}[{nm(u)}, {nm(x)}] gives {nm(got)} but there is no such edge"
+        for n in g.node:
+            for name, want in (("in_links", [(u, x, d.get(key)) for u, x, d in g.in_edges(n)]),
+                               ("out_links", [(u, x, d.get(key)) for u, x, d in g.out_edges(n)]),
+                               ("links", [(u, x, d.get(key)) for u, x, d in g.out_edges(n)])):
+                c = it.call(view(name), [n], {}, None, None)
+                got = list(it.iterate(c, None, None))
+                if got != want:
+                    return f"{name}({nm(n)}) gives {fmt(got)} but the graph says {fmt(want)}"
+                if it.call_builtin("len", [c], {}, None, None) != len(want):
+                    return f"len({name}({nm(n)})) differs from the number of such edges ({len(want)})"
+    except Raised as e:
+        return f"a link view raises {e.exc}: {e.msg}"
+    return None
+
+
 def operations(w: HistWorld):
     """(label, method, args, kwargs) over a small universe"""
     n1, n2, n3 = (w.node(k) for k in ("n1", "n2", "n3"))
@@ -184,6 +248,10 @@ def explore(prog: Program, length: int):
                     bad = (key, f"after {' ; '.join(labels)}: lookup `{key}` gives {_short(got.get(key))} but the graph "
                                 f"says {_short(want[key])}")
                     break
+            if not bad:
+                d = views_vs_graph(w, it)
+                if d:
+                    bad = ("link views", f"after {' ; '.join(labels)}: {d}")
             if bad:
                 break
         yield labels, bad
